@@ -188,6 +188,7 @@ func panicWhere(stack string) string {
 	for _, l := range lines {
 		l = strings.TrimSpace(l)
 		if strings.HasPrefix(l, "com.tuntun.rangers/node/src/") && !strings.Contains(l, "/zzverif/") && !strings.Contains(l, "zzverif_") {
+			l = strings.Replace(strings.Replace(l, "(*", "", -1), ").", ".", -1)
 			if i := strings.Index(l, "("); i > 0 {
 				l = l[:i]
 			}
